@@ -59,7 +59,7 @@ def run(ck):
                "software; a denied frame is neither forwarded nor handed up) and the victim differential (B's normalised state with A running its "
                "whole repertoire = B's state with A idle); non-trivial = denied/forwarded/local decision, or a run in which A emitted traffic")
     coq_props(ck)
-    gen_tie.check(ck, ["device", "acl", "aclrule"])      # the device models decide with Model.Acl, whose address test is translator-tied
+    gen_tie.check(ck, ["device", "acl", "aclrule", "acllist"])      # the device models decide with Model.Acl, whose address test is translator-tied
     coq_in = []
     device_part(ck, coq_in)
     ck.traces += len(coq_in)
